@@ -230,7 +230,7 @@ class QModuleMixin(ABC):
         """
         if self.weight_qtype is None:
             # QModule that does not quantize its weights
-            return None
+            return self.weight
         if isinstance(self.weight, QTensor):
             # Frozen QModule
             return self.weight
@@ -263,10 +263,9 @@ class QModuleMixin(ABC):
         return output
 
     def freeze(self):
-        qweight = self.qweight
-        if qweight is not None:
+        if self.weight_qtype is not None:
             # Replace float weights by quantized weights (that cannot be trained)
-            self.weight = torch.nn.Parameter(qweight, requires_grad=False)
+            self.weight = torch.nn.Parameter(self.qweight, requires_grad=False)
 
     @property
     def frozen(self):
